@@ -249,12 +249,25 @@ func SemCompare(model *Model, src string, o SemOpts, compareYields bool) SemDiff
 		d.Skipped = "budget"
 		return d
 	}
+	// the extracted model represents strings as lists of code points and is orders of magnitude slower than the
+	// evaluator on bulk data: runs whose observable data exceeds 2 MB are not sent to it (counted as skipped)
+	bulk := 0
+	for _, ph := range d.Impl.Phases {
+		bulk += len(ph.Globals)
+		for _, t := range ph.Trace {
+			bulk += len(t)
+		}
+	}
+	if bulk > 2<<20 {
+		d.Skipped = "model-resource:bulk-data"
+		return d
+	}
 	c, err := semCaseSX(d.Impl.Prog, o)
 	if err != nil {
 		d.Skipped = "export:" + err.Error()
 		return d
 	}
-	ans, err := model.AskT(c.String(), 40*time.Second)
+	ans, err := model.AskT(c.String(), 20*time.Second)
 	if err == ErrModelTimeout {
 		d.Skipped = "model-resource:timeout"
 		return d
